@@ -743,7 +743,7 @@ func helperRows(h *ssa.Function) []helperRow {
 // rookOps extracts the rook relocations of a make/undo function: add/removePiece(.., Rook, sq)
 // where sq is a constant under (from,to) conditions, or a result of a helper whose returns are
 // constant under (from,to) conditions (the helper's table is expanded).
-func rookOps(fn *ssa.Function, rookConst int64) []rookOp {
+func rookOps(p *Prog, fn *ssa.Function, rookConst int64) []rookOp {
 	var out []rookOp
 	for _, spec := range []string{"board.(*Board).addPiece", "board.(*Board).removePiece"} {
 		for _, ci := range callsIn(fn, spec) {
@@ -780,10 +780,212 @@ func rookOps(fn *ssa.Function, rookConst int64) []rookOp {
 					}
 				}
 			}
+			// field of a struct found by a lookup helper in a package-level table of castling cases
+			if fidx, base := structFieldOf(args[3]); fidx >= 0 {
+				if ex, ok := base.(*ssa.Extract); ok {
+					if call, ok := ex.Tuple.(*ssa.Call); ok {
+						if h := call.Call.StaticCallee(); h != nil && isOwn(h) && h.Blocks != nil {
+							if rows, fa, fb, ok := structTableRows(p, h, ex.Index); ok {
+								for _, r := range rows {
+									out = append(out, rookOp{From: r[fa], To: r[fb], Op: opName, Sq: r[fidx], Pos: ci.Pos()})
+								}
+								continue
+							}
+						}
+					}
+				}
+			}
 			out = append(out, rookOp{From: -1, To: -1, Op: opName, Sq: -1, Pos: ci.Pos()})
 		}
 	}
 	return out
+}
+
+// structFieldOf: v selects field f of a struct value — directly, or through the local the struct was spilled into.
+func structFieldOf(v ssa.Value) (int, ssa.Value) {
+	v = stripConv(v)
+	switch x := v.(type) {
+	case *ssa.Field:
+		return x.Field, x.X
+	case *ssa.UnOp:
+		if fa, ok := x.X.(*ssa.FieldAddr); ok && x.Op == token.MUL {
+			if al, ok := fa.X.(*ssa.Alloc); ok && al.Referrers() != nil {
+				var val ssa.Value
+				n := 0
+				for _, r := range *al.Referrers() {
+					if st, ok := r.(*ssa.Store); ok && st.Addr == ssa.Value(al) {
+						n++
+						val = st.Val
+					}
+				}
+				if n == 1 {
+					return fa.Field, val
+				}
+			}
+		}
+	}
+	return -1, nil
+}
+
+// traceToGlobal follows loads, range-variable copies and element addressing back to a package-level array.
+func traceToGlobal(v ssa.Value, depth int) *ssa.Global {
+	if depth > 8 || v == nil {
+		return nil
+	}
+	switch x := v.(type) {
+	case *ssa.Global:
+		return x
+	case *ssa.UnOp:
+		if x.Op == token.MUL {
+			return traceToGlobal(x.X, depth+1)
+		}
+	case *ssa.IndexAddr:
+		return traceToGlobal(x.X, depth+1)
+	case *ssa.Index:
+		return traceToGlobal(x.X, depth+1)
+	case *ssa.FieldAddr:
+		return traceToGlobal(x.X, depth+1)
+	case *ssa.Field:
+		return traceToGlobal(x.X, depth+1)
+	case *ssa.Alloc:
+		var g *ssa.Global
+		n := 0
+		if x.Referrers() != nil {
+			for _, r := range *x.Referrers() {
+				if st, ok := r.(*ssa.Store); ok && st.Addr == ssa.Value(x) {
+					n++
+					g = traceToGlobal(st.Val, depth+1)
+				}
+			}
+		}
+		if n == 1 {
+			return g
+		}
+	case *ssa.Phi:
+		var g *ssa.Global
+		for _, e := range x.Edges {
+			if k, isc := e.(*ssa.Const); isc && k.Value == nil {
+				continue
+			}
+			if gg := traceToGlobal(e, depth+1); gg != nil {
+				g = gg
+			}
+		}
+		return g
+	}
+	return nil
+}
+
+// structTableRows: h looks a move up in a package-level array of structs by comparing two fields
+// with m.From() and m.To() and returns the matching element as result resIdx. Returns the table's
+// rows (field index -> constant) and the indexes of the two key fields.
+func structTableRows(p *Prog, h *ssa.Function, resIdx int) (rows []map[int]int64, fFrom, fTo int, ok bool) {
+	fFrom, fTo = -1, -1
+	var g *ssa.Global
+	isFrom := func(v ssa.Value) bool { return isCallValueTo(stripConv(v), "move.(Move).From") }
+	isTo := func(v ssa.Value) bool { return isCallValueTo(stripConv(v), "move.(Move).To") }
+	fieldIdx := func(v ssa.Value) (int, *ssa.Global) {
+		v = stripConv(v)
+		switch x := v.(type) {
+		case *ssa.Field:
+			return x.Field, traceToGlobal(x.X, 0)
+		case *ssa.UnOp:
+			if fa, ok := x.X.(*ssa.FieldAddr); ok && x.Op == token.MUL {
+				return fa.Field, traceToGlobal(fa.X, 0)
+			}
+		}
+		return -1, nil
+	}
+	allInstrs(h, func(in ssa.Instruction) {
+		bo, isb := in.(*ssa.BinOp)
+		if !isb || bo.Op != token.EQL {
+			return
+		}
+		for _, pr := range [][2]ssa.Value{{bo.X, bo.Y}, {bo.Y, bo.X}} {
+			fi, gg := fieldIdx(pr[0])
+			if fi < 0 || gg == nil {
+				continue
+			}
+			if isFrom(pr[1]) {
+				fFrom, g = fi, gg
+			}
+			if isTo(pr[1]) {
+				fTo, g = fi, gg
+			}
+		}
+	})
+	if g == nil || fFrom < 0 || fTo < 0 {
+		return nil, -1, -1, false
+	}
+	// some return hands out an element of that table as result resIdx
+	hands := false
+	allInstrs(h, func(in ssa.Instruction) {
+		if ret, isRet := in.(*ssa.Return); isRet && resIdx < len(ret.Results) {
+			if traceToGlobal(returnedValue(ret, resIdx), 0) == g {
+				hands = true
+			}
+		}
+	})
+	if !hands {
+		return nil, -1, -1, false
+	}
+	init, pk := p.pkgVarInit(relPkg(g.Pkg.Pkg.Path()) + "." + g.Name())
+	if init == nil || pk == nil {
+		return nil, -1, -1, false
+	}
+	cl, isCl := ast.Unparen(init).(*ast.CompositeLit)
+	if !isCl {
+		return nil, -1, -1, false
+	}
+	// element struct type
+	var st *types.Struct
+	if t := pk.TypesInfo.TypeOf(init); t != nil {
+		switch u := t.Underlying().(type) {
+		case *types.Array:
+			st, _ = u.Elem().Underlying().(*types.Struct)
+		case *types.Slice:
+			st, _ = u.Elem().Underlying().(*types.Struct)
+		}
+	}
+	if st == nil {
+		return nil, -1, -1, false
+	}
+	for _, el := range cl.Elts {
+		if kv, isKV := el.(*ast.KeyValueExpr); isKV {
+			el = kv.Value
+		}
+		ecl, isE := ast.Unparen(el).(*ast.CompositeLit)
+		if !isE {
+			return nil, -1, -1, false
+		}
+		row := map[int]int64{}
+		for i := 0; i < st.NumFields(); i++ {
+			row[i] = 0
+		}
+		for i, fe := range ecl.Elts {
+			idx, val := i, fe
+			if kv, isKV := fe.(*ast.KeyValueExpr); isKV {
+				id, isId := kv.Key.(*ast.Ident)
+				if !isId {
+					return nil, -1, -1, false
+				}
+				idx = -1
+				for j := 0; j < st.NumFields(); j++ {
+					if st.Field(j).Name() == id.Name {
+						idx = j
+					}
+				}
+				val = kv.Value
+			}
+			k, isc := constInt(pk.TypesInfo, val)
+			if idx < 0 || !isc {
+				return nil, -1, -1, false
+			}
+			row[idx] = k
+		}
+		rows = append(rows, row)
+	}
+	return rows, fFrom, fTo, len(rows) > 0
 }
 
 func c03R5(c *Ctx, p *Prog) {
@@ -798,7 +1000,7 @@ func c03R5(c *Ctx, p *Prog) {
 		c.Anchor(rule, "chess.Rook")
 		return
 	}
-	mops, uops := rookOps(mk, rook), rookOps(un, rook)
+	mops, uops := rookOps(p, mk, rook), rookOps(p, un, rook)
 	sqName := func(s int64) string {
 		if s < 0 || s > 63 {
 			return fmt.Sprint(s)
